@@ -1,6 +1,7 @@
 """C05 - file header statistics are exact and agree with the reader's running counters.
 
-For the sequence x configuration grid x caller-supplied header patterns {defaults, 0, 1, all-ones, unique}: the header
+For the sequence x configuration grid x caller-supplied header patterns {defaults, 0, 1, all-ones, unique; unique supplied after open(), all-ones supplied
+after the last write, 1 before open() replaced by unique after the last write}: the header
 on disk is compared with an independent recomputation from the container walk of the Python decoder (fileSize = size
 on disk; uncompressedFileSize = 144 + sum(32 + uncompressed size); objectCount = objects written without type 115;
 restorePointsOffset = offset of the trailing container when enabled; caller fields verbatim, the computed fields
@@ -18,6 +19,7 @@ from checks import C04
 import decoder
 
 ASSUME = [
+    "caller-supplied header fields are what stands in File::fileStatistics when close() is called (the header is written at close())",
     "with the restore-point trailer disabled restorePointsOffset is a caller-supplied field (stored verbatim)",
     "objectCount counts every object written except type 115 (restore-point container)",
 ]
@@ -40,6 +42,7 @@ def val(hp, i, width):
 
 
 def expected_caller_fields(hp):
+    hp = {5: 4, 6: 3, 7: 4}.get(hp, hp)   # supplied after open() / after the last write: what stands at close() counts
     if hp == 0:
         return None   # library defaults: whatever FileStatistics' own defaults are (checked in-process against the library's default object)
     return {"apiNumber": val(hp, 0, 4), "applicationId": val(hp, 1, 1), "compressionLevel": val(hp, 2, 1),
@@ -101,8 +104,8 @@ def main(argv):
     try:
         jobs = []
         base = ["readback=1"]
-        jobs += F.jobs(exe, base + ["set=alpha", "maxlen=1"] + F.cfg(F.ALL_LEVELS if not quick else [0, 1, 6, 9], F.ALL_CONTS, (0, 1), (0, 1, 2, 3, 4)), 32)
-        jobs += F.jobs(exe, base + ["set=alpha", "maxlen=2"] + F.cfg([0, 6], [1, 33, 48, 100, 0x20000] if quick else F.ALL_CONTS, (0, 1), (0, 4)), 32)
+        jobs += F.jobs(exe, base + ["set=alpha", "maxlen=1"] + F.cfg(F.ALL_LEVELS if not quick else [0, 1, 6, 9], F.ALL_CONTS, (0, 1), (0, 1, 2, 3, 4, 5, 6, 7)), 32)
+        jobs += F.jobs(exe, base + ["set=alpha", "maxlen=2"] + F.cfg([0, 6], [1, 33, 48, 100, 0x20000] if quick else F.ALL_CONTS, (0, 1), (0, 4, 7)), 32)
         fixed = []
         for i, (e, a) in enumerate(jobs):
             sub = os.path.join(d, "j%d" % i)
